@@ -83,6 +83,16 @@ checks = {
    technique="stateless model checking of the real RuleClient.Run inside testing/synctest bubbles (virtual clock, quiescence by synctest.Wait): exhaustive enumeration of rule configurations x sequences of point batches / clock advances, every publication of the rule compared with a reference interpreter after each batch",
    text="Each of 72 single point conditions (all operators, value kinds and filter combinations), all ordered pairs over a reduced set, and 6 schedule windows (incl. midnight wrap) alone or combined with a number condition are run against all batch sequences of length 2 (thorough 3, plus two-point batches) / all operation sequences of length 4 (6) over clock advances and points. Condition active points, the rule active point, exactly one run of the right action list with the rule as origin, and the opposite list marked inactive are checked as multisets per batch.",
    note="Narrow seam: no store; the rule receives up.<parent>.<node> messages as the store would rebroadcast them (C06). Raw-key filter semantics kept outside the alphabet. Compiled with go1.26.8 for testing/synctest."),
+ "C07": dict(
+   category="model_checking", design_ref="DESIGN.md §2.3, §3 C07",
+   technique="stateless model checking with a controlled scheduler: real store + real client.NewManager + instrumented client in one testing/synctest bubble per execution; every bus delivery waits for a grant of the scheduler (default oldest first), the explorer enumerates all operation histories and, deviation-bounded, alternative delivery orders and early driver operations",
+   text="All histories of 3 (thorough 4) operations over 13 with up to 1 (2) scheduling deviations; oracles: never two clients for one placement at any time, at quiescence (two rescan periods later) the running set equals the reference graph's set and the set a fresh manager starts on the same store, every client's folded configuration equals Decode of the store's node with children, Manager.Stop stops every client and returns.",
+   note="Scheduling points are message deliveries and driver operations; goroutine interleavings between two grants are not enumerated; virtual time advances in 10 ms steps only when nothing is deliverable."),
+ "C08": dict(
+   category="model_checking", design_ref="DESIGN.md §3 C08",
+   technique="same controlled-scheduler rig as C07: exhaustive enumeration of batch sequences (author x target x shape) with the Points/EdgePoints callbacks of the instrumented client as observation, plus a deviation-bounded exploration of delivery orders",
+   text="All sequences of 2 (thorough 3) batches over 23 (4 authors x 4 targets, two-point batches, an edge-point batch); foreign changes in the subtree are told exactly once, in acceptance order, with identical points; own changes never; folding what was told (plus own writes) into the start configuration equals the store's node.",
+   note="Batches with empty origin aimed at a descendant are unclassified by the statement and unconstrained."),
 }
 pending_reason = "check not built yet in this round (planned in DESIGN.md §3); not claimed until its harness exists"
 m = {
